@@ -245,6 +245,9 @@ def run(ctx):
     directed += random.Random(72).sample(dia, 250) if quick else dia
     directed += relgen.systematic_cases(2, dict(SAFE, force_shape=["join_inline", "group_inner", "append_let"]), seed=73,
                                         kinds=["select", "derive", "filter", "sort", "take", "aggregate", "group_take", "join", "append"])
+    # window functions next to every other kind (a window over a window column, windows before / after splits)
+    directed += relgen.systematic_cases(2, SAFE, seed=74, kinds=["window", "derive", "filter", "sort", "take", "select", "group_agg", "join", "filter_window", "distinct"],
+                                        variants=2)
     ctx.coverage_extra["directed_bind_cases"] = len(directed)
     for c_ in directed:
         c_.det = True          # seed independent: a listed finding excuses such a case only if this very input is in the ledger
